@@ -168,7 +168,7 @@ FAMILIES["obs"] = dict(
 )
 FAMILIES["dump"] = dict(
     consts=dict(CompSeq=["A"], RelSet=S(), CapN=1, CapR=1, ResetThr=1, MaxIds=4, MaxGen=2, MaxTabs=4, ValMode="const",
-                OpKinds=S("New", "Kill", "DumpLoad", "Reset", "NewBatch"),
+                OpKinds=S("New", "Kill", "DumpLoad", "Reset", "NewBatch", "Load"),
                 NewSets=S(S(), S("A")), DeltaSets=S(S("A")), FilterCat=[], RegCat=S()),
     tiers=dict(quick=dict(MaxHist=7, EmitPct=15), thorough=dict(MaxHist=9, EmitPct=5)),
     exec=dict(comps=["A"]),
@@ -207,22 +207,22 @@ FAMILIES["wide"] = dict(
 
 # seeded random drivers (real code -> specification): long histories at larger scale, DESIGN.md 4.2
 DRIVES = {
-    "wide": dict(comps=["A", "B", "C", "R"], maxent=20, extra=dict(grid=15), quick=dict(count=160, len=300), thorough=dict(count=3000, len=500)),
-    "rel2": dict(comps=["A", "R", "S"], maxent=14, extra=dict(grid=15), quick=dict(count=160, len=250), thorough=dict(count=3000, len=400)),
-    "obs": dict(comps=["A", "B", "R"], maxent=8, extra=dict(observers=5, obsp=120, grid=10), quick=dict(count=300, len=150), thorough=dict(count=6000, len=250)),
-    "obs2": dict(comps=["A", "R", "S"], maxent=8, extra=dict(observers=6, obsp=150, grid=10), quick=dict(count=300, len=150), thorough=dict(count=6000, len=250)),
-    "lock": dict(comps=["A", "B", "R"], maxent=10, extra=dict(queries=6, observers=2, grid=15), quick=dict(count=300, len=200), thorough=dict(count=6000, len=300)),
-    "lock64": dict(comps=["A", "R"], maxent=6, extra=dict(queries=62), quick=dict(count=60, len=400), thorough=dict(count=1000, len=600)),
-    "reset": dict(comps=["A", "B", "R"], maxent=10, extra=dict(observers=3, resetp=25, stats=True), quick=dict(count=300, len=200), thorough=dict(count=5000, len=300)),
-    "reset2": dict(comps=["A", "R", "S"], maxent=8, extra=dict(observers=3, resetp=40, queries=2), quick=dict(count=200, len=200), thorough=dict(count=4000, len=300)),
+    "wide": dict(comps=["A", "B", "C", "R"], maxent=20, extra=dict(grid=15), quick=dict(count=160, len=300), thorough=dict(count=1200, len=500)),
+    "rel2": dict(comps=["A", "R", "S"], maxent=14, extra=dict(grid=15), quick=dict(count=160, len=250), thorough=dict(count=1200, len=400)),
+    "obs": dict(comps=["A", "B", "R"], maxent=8, extra=dict(observers=5, obsp=120, grid=10), quick=dict(count=300, len=150), thorough=dict(count=2500, len=250)),
+    "obs2": dict(comps=["A", "R", "S"], maxent=8, extra=dict(observers=6, obsp=150, grid=10), quick=dict(count=300, len=150), thorough=dict(count=2500, len=250)),
+    "lock": dict(comps=["A", "B", "R"], maxent=10, extra=dict(queries=6, observers=2, grid=15), quick=dict(count=300, len=200), thorough=dict(count=2500, len=300)),
+    "lock64": dict(comps=["A", "R"], maxent=6, extra=dict(queries=62), quick=dict(count=60, len=400), thorough=dict(count=400, len=600)),
+    "reset": dict(comps=["A", "B", "R"], maxent=10, extra=dict(observers=3, resetp=25, stats=True), quick=dict(count=300, len=200), thorough=dict(count=2000, len=300)),
+    "reset2": dict(comps=["A", "R", "S"], maxent=8, extra=dict(observers=3, resetp=40, queries=2), quick=dict(count=200, len=200), thorough=dict(count=1500, len=300)),
     "arity": dict(comps=["A", "B", "C", "R", "S", "F1", "F2", "F3", "F4", "F5", "F6", "F7"], maxent=10,
                   extra=dict(arity=True, grid=50, typedobs=True, observers=3, queries=2),
-                  quick=dict(count=120, len=250), thorough=dict(count=3000, len=400)),
-    "rich": dict(comps=["A", "P", "Q"], maxent=14, extra=dict(grid=30), quick=dict(count=120, len=250), thorough=dict(count=2500, len=400)),
-    "mem": dict(comps=["A", "P", "Q"], maxent=24, extra=dict(mem=True, gcstress=True, resetp=10), quick=dict(count=120, len=300), thorough=dict(count=2500, len=500)),
-    "mem64": dict(comps=["P", "B", "Q"], maxent=150, extra=dict(mem=True, gcstress=True), quick=dict(count=40, len=900), thorough=dict(count=600, len=1500)),
-    "big": dict(comps=["A", "B"], maxent=260, extra=dict(batchn=90, mem=True), quick=dict(count=30, len=250), thorough=dict(count=400, len=500)),
-    "plain": dict(comps=["A", "B", "C"], maxent=40, extra=dict(grid=15), quick=dict(count=100, len=400), thorough=dict(count=1500, len=800)),
+                  quick=dict(count=120, len=250), thorough=dict(count=1200, len=400)),
+    "rich": dict(comps=["A", "P", "Q"], maxent=14, extra=dict(grid=30), quick=dict(count=120, len=250), thorough=dict(count=1000, len=400)),
+    "mem": dict(comps=["A", "P", "Q"], maxent=24, extra=dict(mem=True, gcstress=True, resetp=10), quick=dict(count=120, len=300), thorough=dict(count=1000, len=500)),
+    "mem64": dict(comps=["P", "B", "Q"], maxent=150, extra=dict(mem=True, gcstress=True), quick=dict(count=40, len=900), thorough=dict(count=250, len=1500)),
+    "big": dict(comps=["A", "B"], maxent=260, extra=dict(batchn=90, mem=True), quick=dict(count=30, len=250), thorough=dict(count=150, len=500)),
+    "plain": dict(comps=["A", "B", "C"], maxent=40, extra=dict(grid=15), quick=dict(count=100, len=400), thorough=dict(count=600, len=800)),
 }
 
 # executor cells: the quantifiers the specification does not range over
@@ -432,7 +432,7 @@ def run_exec(ctx, seqfile, cfg, outprefix, shards, keep=1000):
                "-shard", str(i), "-keep", str(keep)]
         st = exec_proc(ctx, cmd, "executor", cfg, os.path.basename(os.path.dirname(outprefix)), os.path.basename(outprefix))
         return outp, (st or dict(read=0, executed=0, events=0, panics=0, crashed=True))
-    with ThreadPoolExecutor(max_workers=shards) as ex:
+    with ThreadPoolExecutor(max_workers=min(shards, NCPU)) as ex:
         return list(ex.map(one, range(shards)))
 
 
@@ -474,7 +474,10 @@ def load_seq_of_log(logpath, seqno):
     return None
 
 
-def replay_family(ctx, gen, cells, keep, probes, extra_cfg=None):
+def replay_family(ctx, gen, cells, keep, probes, extra_cfg=None, budget=None):
+    """Replay the generated sequences of a family under every cell.  With a budget (events per family) the share of
+    sequences replayed (keep, per mille, seed-chosen) and the number of log shards are fitted to it after a pilot
+    of 300 sequences has measured the events per sequence of each cell, so that logs stay around 150 k events."""
     fam = gen["family"]
     fexec = FAMILIES[fam]["exec"]
     shards = max(1, MON_PAR // max(1, len(cells)))
@@ -489,7 +492,20 @@ def replay_family(ctx, gen, cells, keep, probes, extra_cfg=None):
     t0 = time.time()
     for cell, cfg in jobs:
         prefix = os.path.join(gen["dir"], "log-" + cell)
-        outs = run_exec(ctx, gen["seqs"], cfg, prefix, shards, keep)
+        k, sh = keep, shards
+        if budget:
+            pilot = prefix + ".pilot.ndjson"
+            st = exec_proc(ctx, [ctx.binpath, "-in", gen["seqs"], "-out", pilot, "-cfg", json.dumps(cfg), "-max", "300"],
+                           "executor", cfg, fam, cell)
+            for pth in (pilot, pilot + ".seqs"):
+                if os.path.exists(pth):
+                    os.remove(pth)
+            per_seq = (st["events"] / max(1, st["executed"])) if st else 20.0
+            share = budget / max(1, len(jobs))
+            k = max(1, min(1000, int(1000 * share / max(1.0, gen["nseq"] * per_seq))))
+            sh = max(shards, min(64, int(share / 150000) + 1))
+        outs = run_exec(ctx, gen["seqs"], cfg, prefix, sh, k)
+        keep = k
         results.append((cell, cfg, outs))
     t1 = time.time()
     # validate all logs in parallel
@@ -547,18 +563,22 @@ def drive_family(ctx, name, cells, probes, extra_cfg=None):
     t0 = time.time()
 
     def one(j):
+        # execute, validate, delete: at most MON_PAR logs exist at any time (the histories stay in <log>.seqs)
         cell, cfg, outp = j
         st = exec_proc(ctx, [ctx.binpath, "-drive", str(per), "-len", str(t["len"]), "-out", outp, "-cfg", json.dumps(cfg)],
                        "driver", cfg, "drive:" + name, cell)
-        return st or dict(read=0, executed=0, events=0, panics=0, crashed=True)
-    with ThreadPoolExecutor(max_workers=NCPU) as ex:
-        stats = list(ex.map(one, jobs))
-    t1 = time.time()
-    live = [(j, stt) for j, stt in zip(jobs, stats) if not stt.get("crashed")]
-    jobs, stats = [j for j, _ in live], [stt for _, stt in live]
+        if not st:
+            return dict(read=0, executed=0, events=0, panics=0, crashed=True), None
+        v = run_monitor(ctx, outp)
+        if not os.environ.get("VERIF_KEEP") and os.path.exists(outp):
+            os.remove(outp)
+        return st, v
     with ThreadPoolExecutor(max_workers=MON_PAR) as ex:
-        verdicts = list(ex.map(lambda j: run_monitor(ctx, j[2]), jobs))
-    log("  drive %s: %d histories x %d ops in %d logs (%.0fs), monitor (%.0fs)" % (name, per * len(jobs), t["len"], len(jobs), t1 - t0, time.time() - t1))
+        both = list(ex.map(one, jobs))
+    t1 = time.time()
+    live = [(j, stt, v) for j, (stt, v) in zip(jobs, both) if not stt.get("crashed")]
+    jobs, stats, verdicts = [j for j, _, _ in live], [stt for _, stt, _ in live], [v for _, _, v in live]
+    log("  drive %s: %d histories x %d ops in %d logs, executed and validated in %.0fs" % (name, per * len(jobs), t["len"], len(jobs), t1 - t0))
     for (cell, cfg, lp), stt, v in zip(jobs, stats, verdicts):
         if v["seqs"] != stt["executed"] or v["lines"] != stt["events"]:
             raise Inconclusive("monitor consumed %s/%s lines of %s" % (v["lines"], stt["events"], lp))
@@ -892,11 +912,12 @@ def check_generic(ctx):
         ctx.stats["sequences"] += gen["nseq"]
         # quick tier: replay a seed-chosen sample of the transitions sized to the budget
         nbfs = max(1, len([1 for f, _ in plan if not f.startswith("drive:") and f not in ("obsmodel", "obsenum", "statsmodel", "cursor")]))
-        budget = (400000 // nbfs) if quick else 10 ** 9   # events per family
+        budget = (400000 // nbfs) if quick else (9000000 // nbfs)   # events per family
         cs = choose_cells(ctx, cells)
         per_seq = FAMILIES[fam]["tiers"][ctx.tier]["MaxHist"] + 7
         keep = 1000 if gen["nseq"] * len(cs) * per_seq <= budget else max(1, int(1000 * budget / (gen["nseq"] * len(cs) * per_seq)))
-        replay_family(ctx, gen, cs, keep, pc.get("probes", 0), extra_cfg={k: v for k, v in pc.items() if k != "probes"})
+        replay_family(ctx, gen, cs, keep, pc.get("probes", 0), extra_cfg={k: v for k, v in pc.items() if k != "probes"},
+                      budget=None if quick else budget)
         gens[fam] = gen
     if ctx.pid == "C06":
         unbatch_product(ctx, gens)
@@ -916,7 +937,7 @@ def unbatch_product(ctx, gens):
         keep = max(1, min(1000, int(1000 * (2000 if quick else 40000) / max(1, g["nseq"]))))
         for cell in ["typed1", "exch8"]:
             sources.append(("seq", g["seqs"], keep, dict(CELLS[cell], comps=FAMILIES["batch"]["exec"]["comps"], probes=2, seed=ctx.seed)))
-    counts = dict(wide=40, rel2=40, rich=40) if quick else dict(wide=800, rel2=800, rich=800)
+    counts = dict(wide=40, rel2=40, rich=40) if quick else dict(wide=500, rel2=500, rich=500)
     sources += driven_sources(ctx, ctx.binpath, ["wide", "rel2", "rich"], counts, "typed1", {})
     sources += driven_sources(ctx, ctx.binpath, ["wide", "rich"], counts, "exch8", {})
     cover = {}
@@ -1387,7 +1408,7 @@ def check_c14(ctx):
             raise Inconclusive("design check of %s fails (%s); run the property's own check" % (fam, g["design_violation"]))
         keep = max(1, min(1000, int(1000 * (2500 if quick else 40000) / max(1, g["nseq"]))))
         sources.append(("seq", g["seqs"], keep, dict(comps=FAMILIES[fam]["exec"]["comps"], probes=4, seed=ctx.seed, typedobs=True)))
-    counts = dict(arity=160, wide=20, rel2=20, obs=20) if quick else dict(arity=4000, wide=400, rel2=400, obs=400)
+    counts = dict(arity=160, wide=20, rel2=20, obs=20) if quick else dict(arity=1200, wide=150, rel2=150, obs=150)
     sources += driven_sources(ctx, b, ["arity", "wide", "rel2", "obs"], counts, "typed11", dict(typedobs=True))
     for s_ in sources:
         for k in ("path", "caps", "relst", "perm", "fill", "mapt"):
